@@ -109,13 +109,24 @@ fn tr(n: u64) -> [ST; 3] { [iri("http://e/s"), iri("http://e/p"), lit_dt(&n.to_s
 fn num(t: &[ST; 3]) -> u64 { t[2].lexical_form().unwrap().parse().unwrap() }
 fn tr_through<T: Triple>(t: T) -> u64 { t.o().lexical_form().unwrap().parse().unwrap() }
 
-struct FailingWriter { budget: usize, written: Vec<u8> }
+/// a writer that accepts `budget` bytes and then reports an error; it records every call made AFTER the first error
+/// (a consumer that has been told about a sink error must not touch the sink again)
+struct FailingWriter { budget: usize, written: Vec<u8>, failed: bool, calls_after_failure: usize }
 impl std::io::Write for FailingWriter {
     fn write(&mut self, b: &[u8]) -> std::io::Result<usize> {
-        if self.written.len() + b.len() > self.budget { return Err(std::io::Error::new(std::io::ErrorKind::Other, "disk full")); }
+        if self.failed { self.calls_after_failure += 1; }
+        if self.failed || self.written.len() + b.len() > self.budget { self.failed = true; return Err(std::io::Error::new(std::io::ErrorKind::Other, "disk full")); }
         self.written.extend_from_slice(b); Ok(b.len())
     }
-    fn flush(&mut self) -> std::io::Result<()> { Ok(()) }
+    fn flush(&mut self) -> std::io::Result<()> { if self.failed { self.calls_after_failure += 1; } Ok(()) }
+}
+/// a store that can fail while it is enumerated, and that relies on the DEFAULT methods of the Graph trait
+/// (triples_matching, contains ...): its records are results
+struct FallibleGraph(Vec<Result<[ST; 3], MyErr>>);
+impl Graph for FallibleGraph {
+    type Triple<'x> = [ST; 3];
+    type Error = MyErr;
+    fn triples(&self) -> impl Iterator<Item = Result<Self::Triple<'_>, Self::Error>> + '_ { self.0.iter().cloned() }
 }
 
 fn main() {
@@ -183,7 +194,7 @@ non-trivial = a fault is actually hit after at least one item was consumed, or a
             let items: Vec<u64> = (0..len).map(|_| r.below(9) as u64).collect();
             let k_fault = if r.chance(1, 2) { Some(r.below(len + 1)) } else { None };
             let chain: Vec<AD> = match r.below(4) { 0 => vec![], 1 => vec![AD::FilterEven], 2 => vec![AD::MapSucc], _ => vec![AD::FilterLt(5), AD::MapDouble] };
-            let source_kind = r.below(4); // 0 iterator, 1 N-Triples parser, 2 store (no source fault possible), 3 Turtle parser with ONE statement holding all items (object list: one parser step yields several triples)
+            let source_kind = r.below(5); // 4 = a fallible store enumerated through the DEFAULT Graph::triples_matching; 0 iterator, 1 N-Triples parser, 2 store (no source fault possible), 3 Turtle parser with ONE statement holding all items (object list: one parser step yields several triples)
             let sink_kind = r.below(6); // 0 insert_all capped, 1 remove_all, 2 collect into capped store, 3 serializer with failing writer, 4 closure failing on its j-th item, 5 remove_all on a DATASET (quads in the default graph)
             let init: Vec<u64> = (0..r.below(4)).map(|_| r.below(9) as u64).collect();
             let k_fault = if source_kind == 2 { None } else { k_fault };
@@ -195,6 +206,9 @@ non-trivial = a fault is actually hit after at least one item was consumed, or a
                 0 => { let v: Vec<Result<[ST; 3], MyErr>> = src_model.iter().map(|x| x.map(tr).map_err(MyErr)).collect(); let $s = v.into_iter(); $body }
                 1 => { let mut text = String::new(); for x in &src_model { match x { Ok(n) => text.push_str(&format!("<http://e/s> <http://e/p> \"{n}\"^^<{XSD}integer> .\n")), Err(_) => text.push_str("<http://e/s> <http://e/p> oops .\n") } }
                        let $s = sophia_turtle::parser::nt::parse_str(&text).map_triples(|t| [t.s().into_term::<ST>(), t.p().into_term(), t.o().into_term()]).map_items(|x| x).into_iter().map(|r| r.map_err(|_| MyErr(7))); $body }
+                4 => { let fg = FallibleGraph(src_model.iter().map(|x| x.map(tr).map_err(MyErr)).collect());
+                       let v: Vec<Result<[ST; 3], MyErr>> = if r.chance(1, 2) { fg.triples_matching(Any, Any, Any).collect() } else { fg.triples_matching(Any, [iri("http://e/p")], |t: SimpleTerm| t.is_literal()).collect() };
+                       let $s = v.into_iter(); $body }
                 3 => { let oks: Vec<u64> = src_model.iter().filter_map(|x| x.ok()).collect(); let mut text = String::from("@prefix e: <http://e/> .\n");
                        if !oks.is_empty() { text.push_str(&format!("e:s e:p {} .\n", oks.iter().map(|n| format!("\"{n}\"^^<{XSD}integer>")).collect::<Vec<_>>().join(" , "))); }
                        if src_model.iter().any(|x| x.is_err()) { text.push_str("e:s e:p oops oops .\n"); }
@@ -208,7 +222,7 @@ non-trivial = a fault is actually hit after at least one item was consumed, or a
             let cap: u8 = 2 + 3; // s, p + 3 distinct objects
             type Capped = GenericFastGraph<SimpleTermIndex<SmallIdx<5>>>;
             type CappedLight = GenericLightGraph<SimpleTermIndex<SmallIdx<5>>>;
-            let text = format!("triple-level source={} sink={} items={items:?} source_fault_at={k_fault:?} chain={chain:?} init={init:?}", ["iterator", "nt-parser", "store", "turtle-parser(object list)"][source_kind], ["insert_all(capped)", "remove_all", "collect(capped)", "nt-serializer(failing writer)", "closure failing at item j", "dataset remove_all"][sink_kind]);
+            let text = format!("triple-level source={} sink={} items={items:?} source_fault_at={k_fault:?} chain={chain:?} init={init:?}", ["iterator", "nt-parser", "store", "turtle-parser(object list)", "fallible store through the default triples_matching"][source_kind], ["insert_all(capped)", "remove_all", "collect(capped)", "nt-serializer(failing writer)", "closure failing at item j", "dataset remove_all"][sink_kind]);
             let (content, count, out): (Vec<u64>, u64, Outc) = match sink_kind {
                 0 | 2 => {
                     let mut g = Capped::new();
@@ -263,7 +277,7 @@ non-trivial = a fault is actually hit after at least one item was consumed, or a
                     let exp_seen: Vec<u64> = produced.iter().take(j + 1).cloned().collect();
                     let exp_out = if produced.len() > j { Outc::Sink(5) } else if let Some(Err(e)) = src_model.iter().find(|x| x.is_err()) { Outc::Source(*e) } else { Outc::Done };
                     if seen_items != exp_seen || out != exp_out { sum.oracle_failures.push((idx.to_string(), format!("{text}{} closure fails at its item #{j} ({}): the closure saw {seen_items:?}, outcome {out:?}; expected {exp_seen:?} {exp_out:?}", if direct_parser { " [consumer driven by the parser adapter directly, no adapter chain]" } else { "" }, if step_wise { "driven step-wise" } else { "whole stream" }))); }
-                    sum.bump("sink:closure"); sum.bump(&format!("source:{}", ["iterator", "nt-parser", "store", "turtle-object-list"][source_kind])); sum.evaluations += 1;
+                    sum.bump("sink:closure"); sum.bump(&format!("source:{}", ["iterator", "nt-parser", "store", "turtle-object-list", "fallible-store-default-matching"][source_kind])); sum.evaluations += 1;
                     if seen.insert(format!("{text} j={j}")) && exp_out != Outc::Done && !exp_seen.is_empty() { sum.distinct_nontrivial += 1; }
                     continue;
                 }
@@ -290,7 +304,7 @@ non-trivial = a fault is actually hit after at least one item was consumed, or a
                     let mut c_sorted = content.clone(); c_sorted.sort(); if which == 1 { c_sorted.dedup(); } set.sort();
                     let count_ok = match &res { Ok(n) => which == 1 || *n == cnt, Err(_) => true };
                     if c_sorted != set || out != exp_out || !count_ok { sum.oracle_failures.push((idx.to_string(), format!("{text} (dataset type #{which}): implementation content={c_sorted:?} result={res:?}; expected content={set:?} count={cnt} outcome={exp_out:?}"))); }
-                    sum.bump("sink:dataset-remove_all"); sum.bump(&format!("source:{}", ["iterator", "nt-parser", "store", "turtle-object-list"][source_kind])); sum.evaluations += 1;
+                    sum.bump("sink:dataset-remove_all"); sum.bump(&format!("source:{}", ["iterator", "nt-parser", "store", "turtle-object-list", "fallible-store-default-matching"][source_kind])); sum.evaluations += 1;
                     if seen.insert(format!("{text} d={which}")) && (exp_out != Outc::Done || cnt > 0) { sum.distinct_nontrivial += 1; }
                     continue;
                 }
@@ -300,8 +314,9 @@ non-trivial = a fault is actually hit after at least one item was consumed, or a
                     let j = r.below(4);
                     let produced: Vec<u64> = src_model.iter().take_while(|x| x.is_ok()).filter_map(|x| through(&chain, x.unwrap())).collect();
                     let budget: usize = produced.iter().take(j).map(|n| line_len(*n)).sum::<usize>() + 3;
-                    let mut fw = FailingWriter { budget, written: vec![] };
+                    let mut fw = FailingWriter { budget, written: vec![], failed: false, calls_after_failure: 0 };
                     let res = { let mut ser = NtSerializer::new(&mut fw); with_source!(s => ser.serialize_triples(chained!(s)).map(|_| ())) };
+                    if fw.calls_after_failure > 0 { sum.oracle_failures.push((idx.to_string(), format!("{text} writer budget {j} lines: the serializer called the writer {} more time(s) after the writer had reported an error", fw.calls_after_failure))); }
                     let text_out = String::from_utf8(fw.written).unwrap();
                     let lines: Vec<u64> = text_out.split_inclusive('\n').filter(|l| l.ends_with(">.\n")).map(|l| l.split('"').nth(1).unwrap().parse().unwrap()).collect();
                     let out = match res { Ok(()) => Outc::Done, Err(StreamError::SourceError(e)) => Outc::Source(e.0), Err(StreamError::SinkError(_)) => Outc::Sink(997) };
@@ -334,7 +349,7 @@ non-trivial = a fault is actually hit after at least one item was consumed, or a
             if a.only.is_some() { println!("CASE {idx}: {text}\nIMPL content={c_sorted:?} count={count} out={out:?}\nORACLE content={s_sorted:?} count={cnt} out={exp_out:?}"); }
             if c_sorted != s_sorted || count != cnt || out != exp_out { sum.oracle_failures.push((idx.to_string(), format!("{text}: implementation content={c_sorted:?} count={count} outcome={out:?}; expected content={s_sorted:?} count={cnt} outcome={exp_out:?}"))); }
             if seen.insert(text.clone()) && (exp_out != Outc::Done || cnt > 0) { sum.distinct_nontrivial += 1; }
-            sum.bump(&format!("source:{}", ["iterator", "nt-parser", "store", "turtle-object-list"][source_kind])); sum.bump(&format!("sink:{}", ["insert_all", "remove_all", "collect", "serializer", "closure", "dataset-remove_all"][sink_kind]));
+            sum.bump(&format!("source:{}", ["iterator", "nt-parser", "store", "turtle-object-list", "fallible-store-default-matching"][source_kind])); sum.bump(&format!("sink:{}", ["insert_all", "remove_all", "collect", "serializer", "closure", "dataset-remove_all"][sink_kind]));
             if sum.samples.len() < 5 && exp_out != Outc::Done { sum.samples.push(format!("case {idx}: {text} => content={c_sorted:?} count={count} {out:?}")); }
             let c_src = format!("(of_results {})", coq_list(src_model.iter().map(|x| match x { Ok(v) => format!("inl {v}"), Err(e) => format!("inr {e}") })));
             let c_chain = coq_list(chain.iter().map(c_ad));
